@@ -14,7 +14,7 @@ for l in open("/verif/sensitivity/results.jsonl"):
     if not l:
         continue
     d = json.loads(l)
-    m = re.match(r"seeded-(C\d\d-\d)", d["name"])
+    m = re.match(r"seeded-(C\d\d-\d+)(?:\D|$)", d["name"])
     if m:
         results.setdefault(m.group(1), {})[(d["name"], d.get("part") or d.get("prop"), d.get("tier") or "quick")] = d
 
